@@ -755,6 +755,12 @@ func (h *harness) histories(skip, keep bool, n int, seed int64, full bool) []his
 		}
 	}
 	// crash inside the seal, restart, seal again, delete
+	// retention deletes a fraction that is still active after an interrupted seal left its .sdocs behind (crash after
+	// ._sdocs -> .sdocs, before the index is published), the process dying between every pair of removals of Active.Suicide
+	for k := 1; k <= 2; k++ {
+		hs = append(hs, mk(st("new"), st("fill"), at("seal", 5), st("start"), at("suicide", k), st("start"), st("start")))
+	}
+	hs = append(hs, mk(st("new"), st("fill"), at("seal", 5), st("start"), st("suicide"), st("start")))
 	// between the two removals of Active.Release (the loader then has to remove the stale .docs itself)
 	hs = append(hs, mk(st("new"), st("fill"), at("seal", sealOps-1), st("start"), st("start")))
 	for k := 1; k <= sealOps; k += 2 {
